@@ -43,6 +43,17 @@ Theorem C06_recover_correct : forall c evs s, fixed c ->
 Proof. exact recover_correct. Qed.
 Print Assumptions C06_recover_correct.
 
+(* the schedule hypothesis in the form the acceptor evaluates it: on every real run the extracted [sched_holds] is
+   computed before every event and the event log is rejected (reason R_SCHED) when it is false, so for the runs the
+   correspondence is established on the hypothesis is a checked fact, and the evidence records the largest number
+   of snapshot goroutines seen in the window at a decision of the snap directory purge *)
+Theorem C06_recover_correct_on_checked_runs : forall c evs s, fixed c ->
+  run c init_state evs = Ok s -> sched_holds_run c init_state evs = true ->
+  forall j extra ss, image s j extra = Some ss ->
+  exists k, recover ss (snapfiles s) (ckpts s) = Ok (range 0 k) /\ acked s <= k <= proposed s.
+Proof. intros c evs s Hf Hr Hs. eapply recover_correct; eauto. apply sched_holds_run_ok. exact Hs. Qed.
+Print Assumptions C06_recover_correct_on_checked_runs.
+
 (* the same property without the schedule hypothesis is false of the model (C06_two_snapshots_in_flight_refuted below) *)
 Definition C06_full : Prop := forall c evs s, fixed c ->
   run c init_state evs = Ok s ->
